@@ -17,6 +17,9 @@ CLAIMS = {
  "C05": dict(cat="other", tech="static analysis: abstract interpretation of the assembler's instruction lowering (all variants, all syntactic paths) composed with the operation model on a symbolic stack; comparison with the parsed instruction reference",
    text="For every Instruction variant the lowering to VM operations is extracted from Assembler::compile_instruction (symbolic immediates, guards as labels) and composed with the handler model on a symbolic stack of 16 visible + 16 deeper cells. Data-movement instructions (96 variants) must equal the reference permutation on every cell including those below position 15 (equality of symbolic stacks is equality for every concrete stack); for every matched row of the reference tables the net depth change, the untouched frame, copied outputs and polynomial result formulas (c <- a+b, a*b^-1, ...) are compared; eq/neq/eqw/assert_eq* must compare exactly the documented cell pairs; documented failing cases must be reachable with guards over the documented operands and no prior stack write; error codes and zero-divisor immediates are wired; validated parameter ranges equal the documented ones; shift_left pops/decrements only when depth > 16.",
    note="Trusted: " + TB + "; mirsym, lowering extractor, operation model; docs/src/user_docs/assembly as oracle; frozen family formulas / FAILING / RANGES tables. Not decided: numerical results of u32, ext2, hashing instructions (fresh values in the model); immediate text parsing; counted/list immediates only for a representative symbolic length.", ref="§3 C05"),
+ "C06": dict(cat="other", tech="static analysis: contradiction/one-sided-comparison rule and dominance rules over MIR CFGs; argument-provenance slices; abstract interpretation of compile_procedure",
+   text="In the block executors every branch on `value == ONE` must have, on all paths of its other side, a comparison of the same value with ZERO whose remaining side returns NotBinaryValue before any consequence (child execution, end_*, execute_op, return): decided for the if condition, the loop-entry condition and the loop re-entry test. Split children are executed under the right comparison, join executes first() then second(), start_* dominates children and end_* runs exactly once on success; compile_body passes (true_case, false_case) to new_split in that order, wraps the while body in new_loop and pushes `times` clones for repeat; compile_procedure wraps bodies with locals in Push(n) FmpUpdate ... Push(-n) FmpUpdate with n = num_locals.",
+   note="Trusted: " + TB + "; mirsym for compile_procedure. Not decided: behaviour of nested programs as a whole; exec inlining beyond the lowering shape.", ref="§3 C06"),
 }
 
 NA = {
